@@ -218,7 +218,13 @@ func c12Flows(r *kernel.Run) {
 	var flows []string
 	step := func(name string) { flows = append(flows, name); r.Count("ops."+name, 1) }
 
-	if _, err := rotation.RotateRootCertificates(srv.Ctx, srv.Storage, srv.Opts()...); err != nil {
+	var rootOpts []nodeenrollment.Option
+	if tp.Draw(3) == 0 {
+		// the application keeps state on the roots record
+		rootOpts = append(rootOpts, nodeenrollment.WithState(mkStruct(r, 2)))
+		r.Count("cfg.roots_stored_with_state", 1)
+	}
+	if _, err := rotation.RotateRootCertificates(srv.Ctx, srv.Storage, srv.Opts(rootOpts...)...); err != nil {
 		if outage(err) {
 			return
 		}
@@ -228,7 +234,7 @@ func c12Flows(r *kernel.Run) {
 	regRoots()
 	if tp.Draw(2) == 0 {
 		r.Sleep(8 * 24 * time.Hour)
-		if _, err := rotation.RotateRootCertificates(srv.Ctx, srv.Storage, srv.Opts()...); err != nil {
+		if _, err := rotation.RotateRootCertificates(srv.Ctx, srv.Storage, srv.Opts(rootOpts...)...); err != nil {
 			if outage(err) {
 				return
 			}
@@ -590,7 +596,15 @@ func c12Records(r *kernel.Run) {
 		orig := proto.Clone(rc).(*types.RootCertificates)
 		reg.add("a root private key", rc.Current.PrivateKeyPkcs8)
 		reg.add("a root private key", rc.Next.PrivateKeyPkcs8)
-		if err := rc.Store(w.Ctx, w.Storage, o1...); err != nil {
+		so := o1
+		if opt&4 != 0 {
+			// the application attaches state to the roots record when storing it
+			st := mkStruct(r, 2)
+			so = append(append([]nodeenrollment.Option{}, o1...), nodeenrollment.WithState(st))
+			orig.State = st
+			r.Count("cfg.roots_stored_with_state", 1)
+		}
+		if err := rc.Store(w.Ctx, w.Storage, so...); err != nil {
 			r.Violate("roundtrip", "store-failed/"+kname, "%v", err)
 		}
 		rekey()
